@@ -6,7 +6,10 @@
 //!   MAX_STREAM_DATA; receive side: the largest offset accepted without a FlowControl error.
 //! * `C11s` — one endpoint driven with writes, packet assembly with random capacities (one STREAM
 //!   frame per call through `StreamFramePackages::dump`), MAX_STREAM_DATA / MAX_DATA, losses, acks,
-//!   peer STREAM frames (also beyond the limits, with and without FIN) and reads.
+//!   peer STREAM frames (also beyond the limits, with and without FIN) and reads; the application's
+//!   `Reader::stop`, dropping the `Reader`, `Writer::cancel`; the peer's RESET_STREAM and STOP_SENDING.
+//!   After such an action the generator stays on that stream for a while and aims frames at the
+//!   boundary of the advertised limit (limit-1, limit, limit+1, far beyond; with and without FIN).
 use std::{
     collections::BTreeMap,
     pin::Pin,
@@ -27,7 +30,8 @@ use qbase::{
     util::ContinuousData,
     varint::VarInt,
 };
-use qrecovery::{recv::Reader, send::Writer, streams::{DataStreams, Ext}};
+use qbase::frame::{ResetStreamFrame, StopSendingFrame};
+use qrecovery::{recv::{Reader, StopSending}, send::{CancelStream, Writer}, streams::{DataStreams, Ext}};
 
 use super::c11::{dbg_field, send_state, Rec};
 use crate::common::{catch, Opts, Rng, Sink};
@@ -375,6 +379,7 @@ pub fn run_w(o: &Opts) {
 // =================================================================================================
 
 struct SendHalf {
+    reset: Option<u64>,  // final size of the RESET_STREAM the endpoint emitted (cancel / STOP_SENDING)
     w: W,
     kind: &'static str, // "local:bi" | "local:uni" | "remote:bi"
     peer_limit: u64,     // what the simulated peer has granted (RFC table + MAX_STREAM_DATA sent)
@@ -385,10 +390,32 @@ struct SendHalf {
 }
 
 struct RecvHalf {
-    r: R,
+    r: Option<R>, // `None`: the application dropped the `Reader`
     adv: u64, // limit advertised to the peer (RFC table initial, then MAX_STREAM_DATA frames seen)
     got: Vec<(u64, u64)>,
     fin: Option<u64>,
+    stopped: bool,          // the application called `stop()` (STOP_SENDING sent)
+    reset: Option<u64>,     // a RESET_STREAM of the peer was accepted (final size)
+    returned: u128,         // Σ of the amounts `recv_data` / `recv_stream_control` returned for this stream
+    nread: u64,             // bytes the application has read
+}
+
+impl RecvHalf {
+    fn new(r: R, adv: u64) -> Self {
+        RecvHalf { r: Some(r), adv, got: vec![], fin: None, stopped: false, reset: None, returned: 0, nread: 0 }
+    }
+    /// The state names of RFC 9000 §3.2 plus what the application did: the tag that goes into monitor keys
+    /// (only for the states that this extension added, so that the older signatures stay what they were).
+    fn app_tag(&self) -> String {
+        let mut t = String::new();
+        if self.stopped { t.push_str(":stopped"); }
+        if self.r.is_none() { t.push_str(":readerdropped"); }
+        t
+    }
+    /// largest end offset of the non-empty frames accepted so far (what RFC 9000 §4.1 counts)
+    fn largest(&self) -> u64 {
+        self.got.iter().filter(|x| x.1 > x.0).map(|x| x.1).max().unwrap_or(0)
+    }
 }
 
 impl RecvHalf {
@@ -435,8 +462,17 @@ fn one_case_s(rng: &mut Rng, sink: &mut Sink) {
     let mut conn_rcvd: u128 = 0;
     let (mut saw_retx, mut saw_fresh, mut saw_over, mut saw_blocked) = (false, false, false, false);
     let nops = rng.range(6, 60);
+    // after an application action / a boundary event on a receiving half the generator stays on it
+    // (half of the cases; the other half keeps the plain mix so that long send-side histories stay frequent)
+    let recv_focus = rng.chance(1, 2);
+    sink.branch(if recv_focus { "case:recv-focus" } else { "case:plain-mix" });
+    let mut focus: Option<(u64, u32)> = None;
     for _ in 0..nops {
-        let c = rng.below(100);
+        let mut c = rng.below(124);
+        if !recv_focus { focus = None; if c >= 100 && rng.chance(1, 2) { c = rng.below(100); } }
+        if let Some((_, left)) = focus.as_mut() {
+            if *left == 0 { focus = None; } else { *left -= 1; if rng.chance(3, 5) { c = 80 + rng.below(13); } }
+        }
         if c < 8 {
             // ---- open a local stream -------------------------------------------------------------
             let bi = rng.chance(1, 2);
@@ -445,14 +481,14 @@ fn one_case_s(rng: &mut Rng, sink: &mut Sink) {
                 let s = u64::from(sid);
                 let (sw, rw) = (writer_window(&wr).unwrap_or(u64::MAX), reader_window(&r).unwrap_or(u64::MAX));
                 sink.line("open bi", &format!("sid={} swin={} rwin={}", s, sw, rw));
-                snd.insert(s, SendHalf { w: wr, kind: "local:bi", peer_limit: p.r[1], hi: 0, written: 0, fin_req: false, emitted: vec![] });
-                rcv.insert(s, RecvHalf { r, adv: p.l[0], got: vec![], fin: None });
+                snd.insert(s, SendHalf { reset: None, w: wr, kind: "local:bi", peer_limit: p.r[1], hi: 0, written: 0, fin_req: false, emitted: vec![] });
+                rcv.insert(s, RecvHalf::new(r, p.l[0]));
             } else {
                 let Some((sid, wr)) = e.open_uni() else { sink.line("open uni", "none"); continue };
                 let s = u64::from(sid);
                 let sw = writer_window(&wr).unwrap_or(u64::MAX);
                 sink.line("open uni", &format!("sid={} swin={}", s, sw));
-                snd.insert(s, SendHalf { w: wr, kind: "local:uni", peer_limit: p.r[2], hi: 0, written: 0, fin_req: false, emitted: vec![] });
+                snd.insert(s, SendHalf { reset: None, w: wr, kind: "local:uni", peer_limit: p.r[2], hi: 0, written: 0, fin_req: false, emitted: vec![] });
             }
         } else if c < 14 {
             // ---- the peer opens a stream (first, empty frame) and the application accepts it ----------
@@ -473,14 +509,14 @@ fn one_case_s(rng: &mut Rng, sink: &mut Sink) {
                 assert_eq!(u64::from(s2), s);
                 let (sw, rw) = (writer_window(&wr).unwrap_or(u64::MAX), reader_window(&r).unwrap_or(u64::MAX));
                 sink.line(&op, &format!("sid={} swin={} rwin={}{}", s, sw, rw, frames_tok(&fr)));
-                snd.insert(s, SendHalf { w: wr, kind: "remote:bi", peer_limit: p.r[0], hi: 0, written: 0, fin_req: false, emitted: vec![] });
-                rcv.insert(s, RecvHalf { r, adv: p.l[1], got: vec![], fin: None });
+                snd.insert(s, SendHalf { reset: None, w: wr, kind: "remote:bi", peer_limit: p.r[0], hi: 0, written: 0, fin_req: false, emitted: vec![] });
+                rcv.insert(s, RecvHalf::new(r, p.l[1]));
             } else {
                 let (s2, r) = e.accept_uni().expect("accept_uni");
                 assert_eq!(u64::from(s2), s);
                 let rw = reader_window(&r).unwrap_or(u64::MAX);
                 sink.line(&op, &format!("sid={} rwin={}{}", s, rw, frames_tok(&fr)));
-                rcv.insert(s, RecvHalf { r, adv: p.l[2], got: vec![], fin: None });
+                rcv.insert(s, RecvHalf::new(r, p.l[2]));
             }
         } else if c < 28 {
             // ---- write ---------------------------------------------------------------------------------
@@ -523,6 +559,9 @@ fn one_case_s(rng: &mut Rng, sink: &mut Sink) {
                     let (s, a, b, fin) = pkt.frames[0];
                     sink.line(&op, &format!("frame={}:{}..{}:{}{} {}", s, a, b, if fin { 1 } else { 0 }, frames_tok(&fr), ctl_tail(&e)));
                     if let Some(h) = snd.get_mut(&s) {
+                        if let Some(f) = h.reset {
+                            sink.monitor_fail("frame_after_reset", &format!("stream {}: STREAM frame {}..{} emitted after RESET_STREAM(final_size={})", s, a, b, f));
+                        }
                         // monitor: stream limit in force
                         if b > h.peer_limit {
                             sink.monitor_fail(&format!("stream_limit_exceeded:{}", h.kind), &format!("{} stream {}: emitted ..{} but the peer's limit is {} (remote params {:?})", h.kind, s, b, h.peer_limit, p.r));
@@ -581,10 +620,20 @@ fn one_case_s(rng: &mut Rng, sink: &mut Sink) {
         } else if c < 93 {
             // ---- STREAM frame from the peer ---------------------------------------------------------------
             if rcv.is_empty() { continue; }
-            let s = *rng.pick(&rcv.keys().copied().collect::<Vec<_>>());
+            let live: Vec<u64> = rcv.iter().filter(|(_, h)| h.reset.is_none() && !h.complete()).map(|(s, _)| *s).collect();
+            let s = match focus {
+                Some((f, _)) if rcv.contains_key(&f) && rng.chance(4, 5) => f,
+                _ if !live.is_empty() && rng.chance(5, 6) => *rng.pick(&live),
+                _ => *rng.pick(&rcv.keys().copied().collect::<Vec<_>>()),
+            };
+            let focused = matches!(focus, Some((f, _)) if f == s);
             let h = rcv.get_mut(&s).unwrap();
             let top = h.got.iter().map(|x| x.1).max().unwrap_or(0);
-            let (off, len) = match rng.below(10) {
+            let (off, len) = match if focused && rng.chance(1, 2) { 10 + rng.below(4) } else { rng.below(10) } {
+                10 => { let l = rng.range(1, 60).min(h.adv.max(1)); (h.adv.saturating_sub(l), l) }                // ends exactly at the limit
+                11 => { let l = rng.range(1, 60); ((h.adv + 1).saturating_sub(l), l) }                            // limit + 1
+                12 => { let l = rng.range(1, 60).min(h.adv.saturating_sub(1).max(1)); (h.adv.saturating_sub(1).saturating_sub(l), l) } // limit - 1
+                13 => (h.adv + rng.range(1, 3000), rng.range(0, 40)),                                             // far beyond
                 0 | 1 | 2 => (top, rng.range(0, 200)),                                   // in order
                 3 => (rng.below(top + 1), rng.range(0, 120)),                            // overlap / duplicate
                 4 => { let l = rng.range(0, 100); (h.adv.saturating_sub(l), l) }         // ends exactly at the limit
@@ -594,10 +643,13 @@ fn one_case_s(rng: &mut Rng, sink: &mut Sink) {
                 _ => (top, rng.range(1, 60)),
             };
             let off = off.min(VMAX - 70_000);
-            let fin = rng.chance(1, 5);
+            let fin = if focused { rng.chance(1, 3) } else { rng.chance(1, 5) };
             let end = off + len;
             let op = format!("rx {} {} {} {}", s, off, len, if fin { 1 } else { 0 });
-            let was_complete = h.complete();
+            // terminal for the peer's frames: all data received, or a RESET_STREAM accepted (RFC 9000 §3.2)
+            let was_complete = h.complete() || h.reset.is_some();
+            let tag = h.app_tag();
+            if !was_complete { sink.branch(&format!("rx:state:{}{}{}", if had_fin_of(h) { "sizeknown" } else { "recv" }, if h.nread > 0 { ":read" } else { "" }, tag)); }
             let had_fin = h.fin.is_some();
             let over_stream = end > h.adv;
             let res = e.rx(StreamId::from(vi(s)), off, len as usize, fin);
@@ -614,7 +666,12 @@ fn one_case_s(rng: &mut Rng, sink: &mut Sink) {
             match res {
                 Err(k) => {
                     sink.branch(&format!("rx:err:{:?}", k));
-                    if over_stream { saw_over = true; }
+                    if over_stream { saw_over = true; if !was_complete { sink.branch(&format!("rx:over-limit-refused{}", tag)); } }
+                    // the other direction: data within the limit the endpoint has advertised must not be refused with a
+                    // flow-control error (that would be a limit silently lower than the advertised one)
+                    if k == ErrorKind::FlowControl && !over_stream && !was_complete {
+                        sink.monitor_fail(&format!("stream_within_limit_rejected{}", tag), &format!("stream {}: frame offset {} len {} ends at {} within the advertised stream limit {} but was refused with FLOW_CONTROL_ERROR", s, off, len, end, h.adv));
+                    }
                     sink.line(&op, &format!("err={:?}{}", k, frames_tok(&fr)));
                     return; // the connection is closed
                 }
@@ -622,11 +679,25 @@ fn one_case_s(rng: &mut Rng, sink: &mut Sink) {
                     let mut late: Vec<(String, String)> = vec![];
                     if over_stream && !was_complete {
                         saw_over = true;
-                        let key = if fin { "stream_over_limit_accepted:fin" } else if had_fin { "stream_over_limit_accepted:sizeknown" } else { "stream_over_limit_accepted:data" };
-                        late.push((key.to_string(), format!("stream {}: frame offset {} len {} fin {} ends at {} beyond the advertised stream limit {} but was accepted (fresh={})", s, off, len, fin, end, h.adv, fresh)));
+                        let key = format!("{}{}", if fin { "stream_over_limit_accepted:fin" } else if had_fin { "stream_over_limit_accepted:sizeknown" } else { "stream_over_limit_accepted:data" }, tag);
+                        late.push((key, format!("stream {}: frame offset {} len {} fin {} ends at {} beyond the advertised stream limit {} but was accepted (fresh={})", s, off, len, fin, end, h.adv, fresh)));
                     }
-                    h.got.push((off, end));
-                    if fin && h.fin.is_none() { h.fin = Some(end); }
+                    if !was_complete {
+                        h.got.push((off, end));
+                        if fin && h.fin.is_none() { h.fin = Some(end); }
+                        // connection-level accounting of this stream (RFC 9000 §4.1: the sum of the largest offsets):
+                        // what the stream handed to the connection controller so far must be its largest offset —
+                        // before and after `stop()` / reader drop / reads alike
+                        h.returned += fresh as u128;
+                        let want = h.largest() as u128;
+                        if h.returned != want {
+                            late.push((format!("stream_{}charged{}", if h.returned > want { "over" } else { "under" }, tag),
+                                format!("stream {}: {} bytes handed to the connection-level controller but the largest offset received is {}", s, h.returned, want)));
+                        }
+                    } else if fresh != 0 {
+                        late.push(("terminal_stream_charged".to_string(), format!("stream {} is in a terminal state but {} fresh bytes were reported", s, fresh)));
+                    }
+                    if fin || end + 1 >= h.adv { focus = Some((s, 4)); }
                     conn_rcvd += fresh as u128;
                     let over_conn = conn_rcvd > conn_adv as u128;
                     for f in &fr { if let Some(v) = f.strip_prefix("MD:") { let v: u64 = v.parse().unwrap(); if v < conn_adv { sink.monitor_fail("advertised_max_data_decreased", &format!("{} < {}", v, conn_adv)); } conn_adv = conn_adv.max(v); } }
@@ -647,6 +718,8 @@ fn one_case_s(rng: &mut Rng, sink: &mut Sink) {
                     }
                 }
             }
+        } else if c >= 100 {
+            if new_ops(c, rng, sink, &e, &mut snd, &mut rcv, &mut focus, &mut conn_rcvd, &mut conn_adv) { return; }
         } else {
             // ---- application read ---------------------------------------------------------------------------
             if rcv.is_empty() { continue; }
@@ -654,7 +727,23 @@ fn one_case_s(rng: &mut Rng, sink: &mut Sink) {
             let h = rcv.get_mut(&s).unwrap();
             let cap = match rng.below(4) { 0 => rng.range(0, 3), 1 => 100_000, _ => rng.range(1, 300) } as usize;
             let mut dst = crate::registry::c11s::Lim(BytesMut::new(), cap);
-            let r = h.r.poll_read(&mut cx(), &mut dst);
+            let Some(rd) = h.r.as_mut() else { continue };
+            // `poll_read` (AsyncRead) or `poll_next` (Stream): two copies of the MAX_STREAM_DATA code
+            let use_next = rng.chance(1, 3);
+            let (r, got): (Poll<Result<(), ()>>, usize) = if use_next {
+                match Pin::new(rd).poll_next(&mut cx()) {
+                    Poll::Pending => (Poll::Pending, 0),
+                    Poll::Ready(None) => (Poll::Ready(Ok(())), 0),
+                    Poll::Ready(Some(Ok(b))) => (Poll::Ready(Ok(())), b.len()),
+                    Poll::Ready(Some(Err(_))) => (Poll::Ready(Err(())), 0),
+                }
+            } else {
+                let r = rd.poll_read(&mut cx(), &mut dst);
+                (r.map(|x| x.map_err(|_| ())), dst.0.len())
+            };
+            sink.branch(if use_next { "read:poll_next" } else { "read:poll_read" });
+            h.nread += got as u64;
+            if rng.chance(1, 3) { focus = Some((s, 3)); }
             let fr = e.rec.take();
             for f in &fr {
                 if let Some(rest) = f.strip_prefix("MSD:") {
@@ -663,16 +752,157 @@ fn one_case_s(rng: &mut Rng, sink: &mut Sink) {
                     h.adv = h.adv.max(v);
                 }
             }
-            let op = format!("read {} {}", s, cap);
+            let op = if use_next { format!("next {}", s) } else { format!("read {} {}", s, cap) };
             match r {
                 Poll::Pending => sink.line(&op, &format!("pending{}", frames_tok(&fr))),
-                Poll::Ready(Ok(())) => sink.line(&op, &format!("n={}{}", dst.0.len(), frames_tok(&fr))),
+                Poll::Ready(Ok(())) => sink.line(&op, &format!("n={}{}", got, frames_tok(&fr))),
                 Poll::Ready(Err(_)) => sink.line(&op, &format!("err{}", frames_tok(&fr))),
             }
         }
     }
     if saw_fresh && (saw_retx || saw_blocked) { sink.nontrivial(); }
     if saw_over { sink.branch("case:over-limit-input"); }
+}
+
+fn had_fin_of(h: &RecvHalf) -> bool {
+    h.fin.is_some()
+}
+
+/// The operations added for the whole receiver / sender state machines (`c` in 100..124): `stop`, `dropreader`,
+/// `reset` (RESET_STREAM from the peer), `cancel`, `stopsending` (STOP_SENDING from the peer), `rstack`.
+/// Returns `true` when the connection is closed (the case ends).
+#[allow(clippy::too_many_arguments)]
+fn new_ops(
+    c: u64, rng: &mut Rng, sink: &mut Sink, e: &Endpoint, snd: &mut BTreeMap<u64, SendHalf>, rcv: &mut BTreeMap<u64, RecvHalf>,
+    focus: &mut Option<(u64, u32)>, conn_rcvd: &mut u128, conn_adv: &mut u64,
+) -> bool {
+    if c < 109 {
+        // ---- the application gives a receiving half up: stop(code) / drops the Reader ----------------------
+        let cands: Vec<u64> = rcv.iter().filter(|(_, h)| h.r.is_some()).map(|(s, _)| *s).collect();
+        if cands.is_empty() { return false; }
+        let s = match *focus { Some((f, _)) if cands.contains(&f) && rng.chance(1, 2) => f, _ => *rng.pick(&cands) };
+        let h = rcv.get_mut(&s).unwrap();
+        if c < 106 {
+            let code = rng.below(1000);
+            h.r.as_mut().unwrap().stop(code);
+            let fr = e.rec.take();
+            h.stopped = true;
+            sink.branch(if fr.is_empty() { "stop:noop" } else { "stop:sent" });
+            sink.line(&format!("stop {} {}", s, code), &format!("ok{}", frames_tok(&fr)));
+        } else {
+            h.r = None;
+            let fr = e.rec.take();
+            sink.branch("dropreader");
+            sink.line(&format!("dropreader {}", s), &format!("ok{}", frames_tok(&fr)));
+        }
+        *focus = Some((s, 6));
+        false
+    } else if c < 115 {
+        // ---- RESET_STREAM from the peer ------------------------------------------------------------------------
+        if rcv.is_empty() { return false; }
+        let s = match *focus { Some((f, _)) if rcv.contains_key(&f) && rng.chance(1, 2) => f, _ => *rng.pick(&rcv.keys().copied().collect::<Vec<_>>()) };
+        let h = rcv.get_mut(&s).unwrap();
+        let top = h.got.iter().map(|x| x.1).max().unwrap_or(0);
+        let fin_ = match rng.below(9) {
+            0 => top,
+            1 => top.saturating_sub(1),
+            2 => h.adv,
+            3 => h.adv + 1,
+            4 => h.adv.saturating_sub(1),
+            5 => h.adv + rng.range(1, 5000),
+            6 => h.fin.unwrap_or(top),
+            _ => top + rng.range(0, 100),
+        }.min(VMAX);
+        let sid = StreamId::from(vi(s));
+        let frame = StreamCtlFrame::ResetStream(ResetStreamFrame::new(sid, vi(rng.below(1000)), vi(fin_)));
+        let ft = frame.frame_type();
+        let op = format!("reset {} {}", s, fin_);
+        let terminal = h.complete() || h.reset.is_some();
+        let tag = h.app_tag();
+        let res = e.ds.recv_stream_control(frame).map_err(|er| er.kind());
+        match res {
+            Err(k) => {
+                let fr = e.rec.take();
+                sink.branch(&format!("reset:err:{:?}", k));
+                sink.line(&op, &format!("err={:?}{}", k, frames_tok(&fr)));
+                true
+            }
+            Ok(sync) => {
+                let conn = e.rc.on_new_rcvd(ft, sync).map_err(|er| er.kind());
+                let fr = e.rec.take();
+                let mut late: Vec<(String, String)> = vec![];
+                if !terminal {
+                    sink.branch(&format!("reset:accepted:{}{}", if h.fin.is_some() { "sizeknown" } else { "recv" }, tag));
+                    if fin_ > h.adv {
+                        late.push(("reset_over_limit_accepted".to_string(), format!("stream {}{}: RESET_STREAM with final size {} beyond the advertised stream limit {} was accepted (RFC 9000 §4.5: the final size counts against flow control; §4.1: FLOW_CONTROL_ERROR), sync={}", s, tag, fin_, h.adv, sync)));
+                    }
+                    h.reset = Some(fin_);
+                    h.returned += sync as u128;
+                    let empty_beyond = h.got.iter().filter(|x| x.1 == x.0).map(|x| x.1).max().unwrap_or(0) > h.largest();
+                    if empty_beyond { sink.branch("reset:after-empty-frame-beyond-data"); }
+                    if h.returned < fin_ as u128 && !empty_beyond {
+                        late.push((format!("stream_undercharged:reset{}", tag), format!("stream {}: final size {} but only {} bytes handed to the connection-level controller (RFC 9000 §4.5: the final size accounts for all bytes of the stream)", s, fin_, h.returned)));
+                    }
+                    if h.returned > fin_ as u128 {
+                        late.push((format!("stream_overcharged:reset{}", tag), format!("stream {}: {} bytes handed to the connection-level controller for a stream whose final size is {}", s, h.returned, fin_)));
+                    }
+                } else {
+                    sink.branch("reset:terminal");
+                    if sync != 0 { late.push(("terminal_stream_charged".to_string(), format!("stream {} is in a terminal state but RESET_STREAM reported {} bytes", s, sync))); }
+                }
+                *conn_rcvd += sync as u128;
+                let over_conn = *conn_rcvd > *conn_adv as u128;
+                for f in &fr { if let Some(v) = f.strip_prefix("MD:") { let v: u64 = v.parse().unwrap(); if v < *conn_adv { sink.monitor_fail("advertised_max_data_decreased", &format!("{} < {}", v, *conn_adv)); } *conn_adv = (*conn_adv).max(v); } }
+                match conn {
+                    Ok(_) => {
+                        if over_conn { sink.monitor_fail("conn_over_limit_accepted", &format!("{} bytes in total against the advertised connection limit (after RESET_STREAM)", *conn_rcvd)); }
+                        sink.line(&op, &format!("sync={} conn=ok{} {}", sync, frames_tok(&fr), rc_tail(e)));
+                        for (k, w) in late { sink.monitor_fail(&k, &w); }
+                        false
+                    }
+                    Err(k) => {
+                        if !over_conn { sink.monitor_fail("conn_within_limit_rejected", "connection-level FlowControl although within the advertised limit"); }
+                        sink.line(&op, &format!("sync={} conn={:?}{} {}", sync, k, frames_tok(&fr), rc_tail(e)));
+                        for (k, w) in late { sink.monitor_fail(&k, &w); }
+                        true
+                    }
+                }
+            }
+        }
+    } else if c < 121 {
+        // ---- the sending half is reset: Writer::cancel / STOP_SENDING from the peer -------------------------------
+        if snd.is_empty() { return false; }
+        let s = *rng.pick(&snd.keys().copied().collect::<Vec<_>>());
+        let h = snd.get_mut(&s).unwrap();
+        let code = rng.below(1000);
+        let cancel = c < 118;
+        let op = format!("{} {}", if cancel { "cancel" } else { "stopsending" }, s);
+        let res = if cancel { h.w.cancel(code); Ok(0) } else {
+            e.ds.recv_stream_control(StreamCtlFrame::StopSending(StopSendingFrame::new(StreamId::from(vi(s)), vi(code)))).map_err(|er| er.kind())
+        };
+        let fr = e.rec.take();
+        if let Err(k) = res { sink.line(&op, &format!("err={:?}{}", k, frames_tok(&fr))); return true; }
+        let pre = format!("RST:{}:", s);
+        if let Some(f) = fr.iter().find_map(|x| x.strip_prefix(&pre).map(|v| v.parse::<u64>().unwrap())) {
+            sink.branch(&format!("{}:reset-sent", if cancel { "cancel" } else { "stopsending" }));
+            if h.reset.is_some() { sink.monitor_fail("reset_stream_twice", &format!("stream {}: a second RESET_STREAM", s)); }
+            // RFC 9000 §4.5: the final size is the amount of flow control credit consumed = every byte emitted once
+            if f != h.hi { sink.monitor_fail("reset_final_size_mismatch", &format!("stream {}: RESET_STREAM final size {} but the highest offset emitted (and charged to the connection) is {}", s, f, h.hi)); }
+            if f > h.peer_limit { sink.monitor_fail(&format!("stream_limit_exceeded:reset:{}", h.kind), &format!("stream {}: RESET_STREAM final size {} beyond the peer's limit {}", s, f, h.peer_limit)); }
+            h.reset = Some(f);
+        } else {
+            sink.branch(&format!("{}:noop", if cancel { "cancel" } else { "stopsending" }));
+        }
+        sink.line(&op, &format!("ok{}", frames_tok(&fr)));
+        false
+    } else {
+        // ---- the RESET_STREAM is acknowledged ---------------------------------------------------------------------
+        let cands: Vec<(u64, u64)> = snd.iter().filter_map(|(s, h)| h.reset.map(|f| (*s, f))).collect();
+        if cands.is_empty() { return false; }
+        let (s, f) = *rng.pick(&cands);
+        let r = catch(|| e.ds.on_reset_acked(ResetStreamFrame::new(StreamId::from(vi(s)), vi(0), vi(f))));
+        match r { Ok(()) => { sink.line(&format!("rstack {}", s), "ok"); false } Err(_) => { sink.line(&format!("rstack {}", s), "PANIC"); true } }
+    }
 }
 
 pub struct Lim(pub BytesMut, pub usize);
@@ -712,7 +942,7 @@ pub fn run_s(o: &Opts) {
         sink.case(&format!("{}", i));
         one_case_s(&mut rng, &mut sink);
     }
-    sink.finish(&o.stats, "random histories on one real DataStreams endpoint (client or server role, six random initial windows incl. 0 and values around the 1,000,000-byte MAX_STREAM_DATA threshold): open/accept of all four stream kinds, write, shutdown, one-frame packet assembly with random capacity, MAX_STREAM_DATA, MAX_DATA, partial acks and losses of emitted frames, peer STREAM frames in order / overlapping / at, one over and far over the limit with and without FIN, reads; non-trivial = fresh data was emitted and a retransmission or a flow-control block occurred; distinct by hash of the case transcript");
+    sink.finish(&o.stats, "random histories on one real DataStreams endpoint (client or server role, six random initial windows incl. 0 and values around the 1,000,000-byte MAX_STREAM_DATA threshold): open/accept of all four stream kinds, write, shutdown, one-frame packet assembly with random capacity, MAX_STREAM_DATA, MAX_DATA, partial acks and losses of emitted frames, peer STREAM frames in order / overlapping / at, one under, one over and far over the limit with and without FIN, reads, Reader::stop / Reader dropped / RESET_STREAM from the peer (final size at, around and beyond the limit) followed by boundary frames on the same stream, Writer::cancel / STOP_SENDING from the peer / ack of the RESET_STREAM; non-trivial = fresh data was emitted and a retransmission or a flow-control block occurred; distinct by hash of the case transcript");
 }
 
 pub const RUNS: &[(&str, fn(&Opts))] = &[("C11w", run_w), ("C11s", run_s)];
